@@ -386,6 +386,8 @@ def launch(argv, cwd, env, out_path, fault=None, trace=None, proc="", readdir_se
             pymod = is_python(argv[0]) and len(argv) > 2 and argv[1] == "-m"
             if pymod or prog in ("picosvg", "nanoemoji"):
                 sys.path.insert(0, REPO_SRC)
+                for extra in reversed([x for x in env.get("PYTHONPATH", "").split(":") if x]):
+                    sys.path.insert(1, extra)
                 if readdir_seed is not None:
                     _install_readdir_permutation(readdir_seed)
                 if trace:
